@@ -33,11 +33,14 @@ def maxdiff(a, b):
 
 def run_case(desc):
     cfg = dict(desc["cfg"], scale=1.0)  # C16 passes drivers explicitly and scales them itself
+    int_driver = bool(cfg.get("int_driver"))
     U = sg.universe_of(cfg)
     letters = gen.uletters(U)
     shape = tuple(len(d["items"]) for d in U["dims"])
     n = shape[0]
     u = np.array(cfg["driver"], float).reshape(shape)  # C16 scales explicitly
+    if int_driver:
+        u = np.round(u)
     v = np.array(desc["v"], float).reshape(-1)[: u.size]
     v = np.resize(v, u.size).reshape(shape)
     probe = sg.build_stock(dict(cfg, cls="idsm"))
@@ -67,6 +70,8 @@ def run_case(desc):
 
     # 1b. pure scaling over many orders of magnitude (results scale with the driver, whatever the unit)
     sc = desc.get("scale", 1e-10)
+    if int_driver:
+        sc = 3.0  # whole numbers stay whole numbers
     rs, _ = run_model(cfg, sc * u)
     runs += 1
     for k in KEYS:
